@@ -230,6 +230,7 @@ func (in *Interp) join(fr *frame) {
 	}
 	ts.running = false
 	// all threads finished: main continues, ordered after all of them
+	in.path.lastSchedule = append([]int(nil), ts.schedule...)
 	ts.threads = nil
 }
 
